@@ -148,7 +148,10 @@ class MirrorSim(Sim):
         return True
 
     def same_state(self, cl, where):
-        if state_key(cl.env.state) != state_key(cl.S):
+        if state_key(cl.S) != cl.Skey:
+            self.violate('mirror', 'returned_state_changed_later', where, '-', 'a state returned by the functional interface changed after it was returned')
+            return False
+        if state_key(cl.env.state) != cl.Skey:
             self.violate('mirror', 'state_differs', where, '-', f'stateful {world_of(cl.env.state)["agent"]} vs functional {world_of(cl.S)["agent"]}')
             return False
         return True
@@ -170,6 +173,7 @@ class MirrorSim(Sim):
             return
         cl.started = True
         cl.S, cl.O, cl.fresh, cl.reads_since_change = S, None, False, 0
+        cl.Skey = state_key(S)
         cl.calls_at_change = cl.obs_calls
         self.ctx.log('reset', cl.idx, state_key(S))
         self.ctx.state(state_key(S))
@@ -199,6 +203,7 @@ class MirrorSim(Sim):
         cl.meta['stepped'] = True
         S1, fr, fd = f
         cl.S, cl.O, cl.fresh, cl.reads_since_change = S1, None, False, 0
+        cl.Skey = state_key(S1)
         cl.calls_at_change = cl.obs_calls
         self.ctx.log('step', cl.idx, a.name, state_key(S1), repr(fr), bool(fd))
         self.ctx.state(state_key(S1))
@@ -222,6 +227,7 @@ class MirrorSim(Sim):
             o = sut(lambda: cl.env.observation)
             if not cl.fresh:
                 cl.O = sut(tw.env.functional_observation, cl.S)
+                cl.Okey = None if isinstance(cl.O, Raised) else state_key(cl.O)
                 cl.fresh = True
             if isinstance(o, Raised) or isinstance(cl.O, Raised):
                 if isinstance(o, Raised) != isinstance(cl.O, Raised):
@@ -236,7 +242,7 @@ class MirrorSim(Sim):
                 if cl.rng_state() != g0:
                     self.violate('mirror', 'repeated_read_consumed_randomness', 'read', cl.mspec['obs']['name'], 'a repeated read advanced the generator')
                     return
-            if state_key(o) != state_key(cl.O):
+            if state_key(o) != cl.Okey:
                 stale = 'stale' if cl.reads_since_change == 1 else 'changed_between_reads'
                 self.violate('mirror', 'observation_differs', 'read', stale, 'observation read is not the observation of the current state')
                 return
@@ -309,14 +315,26 @@ class MirrorSim(Sim):
         if not past or state_key(past[-1]) != state_key(cl.S):
             past.append(cl.S)
             del past[:-6]
-        P = past[i % len(past)]
-        a = action_of(cl.actions[k % len(cl.actions)])
+        P = P2 = past[i % len(past)]
+        live = i % 3 == 0
+        if live:
+            # the planner starts from the very object the environment holds (the twin gets its own equal state)
+            P, P2 = cl.env.state, cl.S
+            self.ctx.probe('lookahead_from_live_state_object')
+        name = cl.actions[k % len(cl.actions)]
+        if k % 2 == 0 and 'ACTUATE' in cl.actions:
+            w = world_of(P)
+            fy, fx = M.front(w)
+            if M.inside(w, fy, fx) and w['cells'][fy][fx][0] in ('Door', 'Box'):
+                name = 'ACTUATE'
+                self.ctx.probe('lookahead_actuates')
+        a = action_of(name)
         self.ctx.fault('functional_calls_on_live_env_' + what)
         calls0 = cl.obs_calls
         Q = P
         if what in ('step', 'both'):
             r1 = sut(cl.env.functional_step, P, a)
-            r2 = sut(tw.env.functional_step, P, a)
+            r2 = sut(tw.env.functional_step, P2, a)
             if isinstance(r1, Raised) or isinstance(r2, Raised):
                 return
             if state_key(r1[0]) != state_key(r2[0]) or r1[1] != r2[1] or bool(r1[2]) != bool(r2[2]):
